@@ -56,14 +56,17 @@ def run_harness(env, pkg, func, args, assume=(), unwind=64, merge=False, timeout
                 out.append(a)
         return out
     cex, nobl = runner.outcome_violations(I, ctx, outs, pargs, func, args_of)
-    return dict(status='viol' if cex else 'ok', cex=cex, obligations=nobl, npaths=len(outs), global_writes=sorted(I.global_writes), global_reads=sorted(I.global_reads),
+    if not outs:
+        raise Inconclusive('vacuous: no path reached the end of harness %s (unsatisfiable assumptions?)' % func)
+    return dict(status='viol' if cex else 'ok', cex=cex, obligations=nobl, npaths=len(outs), ret_sites=[[k[0], k[1], n] for k, n in I.ret_sites.items()], global_writes=sorted(I.global_writes), global_reads=sorted(I.global_reads),
                 samples=[dict(harness=func, shape=sample, paths=len(outs), result='%d counterexample(s)' % len(cex) if cex else 'all paths return 0; no panic, no unwinding failure')],
                 stats=dict(I.stats, **ctx.stats, solver_time=ctx.solver_time))
 
 
 def merge_results(rs):
-    out = dict(status='ok', cex=[], obligations=0, samples=[], stats={}, global_writes=[], global_reads=[])
+    out = dict(status='ok', cex=[], obligations=0, samples=[], stats={}, global_writes=[], global_reads=[], ret_sites=[])
     for r in rs:
+        out['ret_sites'] += r.get('ret_sites', [])
         out['global_writes'] = sorted(set(out['global_writes']) | set(r.get('global_writes', ())))
         out['global_reads'] = sorted(set(out['global_reads']) | set(r.get('global_reads', ())))
         out['cex'] += r['cex']
